@@ -2,7 +2,11 @@ pub mod c01;
 pub mod c02;
 pub mod c03;
 pub mod c04;
+pub mod c14;
+pub mod c15;
+pub mod c16;
 pub mod c17;
+pub mod c18;
 
 use crate::runner::Ctx;
 use std::path::Path;
@@ -13,7 +17,11 @@ pub fn run(ctx: &Ctx) -> i32 {
         "C02" => c02::run(ctx),
         "C03" => c03::run(ctx),
         "C04" => c04::run(ctx),
+        "C14" => c14::run(ctx),
+        "C15" => c15::run(ctx),
+        "C16" => c16::run(ctx),
         "C17" => c17::run(ctx),
+        "C18" => c18::run(ctx),
         other => {
             eprintln!("unknown property {other}");
             2
@@ -28,6 +36,10 @@ pub fn replay(ctx: &Ctx, file: &Path) -> i32 {
         "C02" => ctx.replay_file(file, &|c: &str, case: &serde_json::Value| c02::replay_any(c, case, &ctx.known)),
         "C03" => ctx.replay_file(file, &|c: &str, case: &serde_json::Value| c03::replay_any(c, case, &ctx.known)),
         "C04" => ctx.replay_file(file, &|c: &str, case: &serde_json::Value| c04::replay_any(c, case, &ctx.known)),
+        "C18" => ctx.replay_file(file, &|c: &str, case: &serde_json::Value| c18::replay_any(c, case, &ctx.known)),
+        "C14" => ctx.replay_file(file, &|c: &str, case: &serde_json::Value| c14::replay_any(c, case, &ctx.known)),
+        "C15" => ctx.replay_file(file, &|c: &str, case: &serde_json::Value| c15::replay_any(c, case, &ctx.known)),
+        "C16" => ctx.replay_file(file, &|c: &str, case: &serde_json::Value| c16::replay_any(c, case, &ctx.known)),
         "C17" => ctx.replay_file(file, &|_c: &str, case: &serde_json::Value| {
             Some(c17::outcome(case.get("source")?.as_str()?, &ctx.known))
         }),
